@@ -447,7 +447,7 @@ func c07OracleLong(g *Gen, r *Rand, keys []c07Real) {
 			sig = c07FlipBit(r, sig)
 			allGood = false
 		}
-		ents = append(ents, ent{k, c07BLine{k.k.name, k.k.hash, sig}})
+		ents = append(ents, ent{k, c07BLine{k.k.name, k.k.hash, sig, ""}})
 	}
 	for i := r.Intn(3); i > 0; i-- {
 		add(&u[r.Intn(len(u))], 20)
